@@ -21,10 +21,10 @@ def run(tier):
     q = tier == "quick"
     sn, mn = ("sigrender_quick", "modstub_quick") if q else ("sigrender_thorough", "modstub_thorough")
     jobs = [
-        Job("harness.c12", sn, H.shards(sn, 4 if q else 6), 240 if q else 700,
+        Job("harness.c12", sn, H.shards(sn, 4 if q else 6), 600 if q else 700,
             bounds=dict(per_kind_max=1 if q else 2, annotations=len(H.ANNOS_Q if q else H.ANNOS), max_line_len="None | all integers (symbolic)", prefix=["", "    "]),
             rule="one path = (signature shape, width class, prefix)", describe=H.describe),
-        Job("harness.c12", mn, H.shards(mn, 4 if q else 8), 200 if q else 700,
+        Job("harness.c12", mn, H.shards(mn, 4 if q else 8), 500 if q else 700,
             bounds=dict(functions=[f.__qualname__ for f in (H.QUICK_FUNCS if q else H.MOD_FUNCS)], subsets="all non-empty subsets (symbolic bits)"),
             rule="one path = one traced subset", describe=H.describe),
     ]
